@@ -260,8 +260,8 @@ namespace {
         for (int i = 0; i < nparties; i++) kinds.push_back((os_mask >> i) & 1 ? PARTY_OS : PARTY_TASK);
         Program const& prog = ctx.program;
         P.launch(kinds, [&prog, kinds](int i) { run_party(prog, i, kinds[(size_t) i] == PARTY_OS); });
+        while (!P.all_finished()) main_pause(4000000, 600000);
         sim_quiesce(4000000);
-        while (!P.all_finished()) main_pause();
         P.join_os();
         // resume everything that the model says is suspended, then all work must drain
         if (g_pool_suspended)
